@@ -21,7 +21,7 @@ pub fn property() -> Property {
             "a prefix that ends inside the final PEM line may load or not; serve/info must agree with the result",
             "the notify watcher/debounce trigger is not driven; reload requests are exercised directly",
         ],
-        families: vec![(Box::new(ReloadFam), 2_500, 20_000), (Box::new(ListenerFam), 60, 600)],
+        families: vec![(Box::new(ReloadFam), 10_000, 400_000), (Box::new(ListenerFam), 200, 6_000)],
     }
 }
 
